@@ -69,6 +69,7 @@ func (w *zzRetryW) Write(p []byte) (int, error) {
 // exists, whatever subset of the others is failing, that backend receiving the complete body; if
 // all fail the client gets 502 once try_duration is spent.
 func VerifH05cRetries() {
+	verifrt.Budget(2000000) // a retry loop that never ends is cut here (paths need < 50 k instructions)
 	verifrt.Terminates()
 	n := verifrt.IntRange("hosts", 2, 3)
 	var pol Policy
@@ -143,6 +144,7 @@ func VerifH05cRetries() {
 // attempt of each request -- in particular the retry that happens while the other upload is being
 // handled -- carries that request's own complete body.
 func VerifH05dConcurrentRetry() {
+	verifrt.Budget(2000000) // a retry loop that never ends is cut here (paths need < 50 k instructions)
 	verifrt.Terminates()
 	verifrt.Concurrent(verifrt.Tier()) // goroutines interleave where they block (sleep between attempts, locks); thorough: one preemption
 	if verifrt.Confirming() {
